@@ -73,7 +73,7 @@ for p in allp:
     if p not in claimed and p not in not_applicable:
         pending[p] = "check not built yet in this revision of the harness (planned: DESIGN.md §5 %s)" % p
 
-hook_commit = subprocess.run(["git","-C","/repo","log","--format=%H","-1","--","verif_hooks.go"],capture_output=True,text=True).stdout.strip()
+hook_commits = subprocess.run(["git","-C","/repo","log","--reverse","--format=%H","--","verif_hooks.go"],capture_output=True,text=True).stdout.split()
 m = {
  "version": 1,
  "setup_cmd": ". ./env.sh && cd dsim && $GO build -o ../bin/dsim ./cmd/dsim && cd .. && ./bin/dsim build",
@@ -81,7 +81,7 @@ m = {
    "guard": "verif",
    "enable": "go test -c -tags verif -overlay <generated by dsim/instr from /repo's working tree> ./scen (done by ./bin/dsim on every check)",
    "baseline_off_cmd": "cd /repo && GOFLAGS=-mod=mod go test -vet=off -count=1 -timeout 25m ./...",
-   "source_commits": [hook_commit],
+   "source_commits": hook_commits,
    "add_only": True,
  },
  "engines": [{"name": "dsim", "path": "dsim/", "serves_properties": sorted(claimed), "kind_free_text": "deterministic simulation with fault injection: real dht code inside testing/synctest bubbles on a simulated socket/network/clock, seeded chooser, source-overlay yield points and lock model for schedule control, replay + minimisation"}],
